@@ -85,6 +85,18 @@ Theorem C13_class_merge : forall c s m, class_merge c s = OK m -> class_merge_fa
 Proof. exact class_merge_spec. Qed.
 Print Assumptions C13_class_merge.
 
+(* inside the hypotheses the class merge returns a class: the two versions agree in version,
+   access, name, super class, deprecated/synthetic flags (also of shared members) and in the
+   records of shared inner classes — everything else may differ *)
+Theorem C13_class_merge_ok : forall c s,
+  c_version c = c_version s /\ c_access c = c_access s /\ c_name c = c_name s /\ c_super c = c_super s /\
+  c_depr c = c_depr s /\ c_synth c = c_synth s /\
+  flags_agree (c_fields c) (c_fields s) /\ flags_agree (c_methods c) (c_methods s) /\
+  inner_agree (unwrap_or_default (c_inner c)) (unwrap_or_default (c_inner s)) ->
+  exists m, class_merge c s = OK m.
+Proof. exact class_merge_ok. Qed.
+Print Assumptions C13_class_merge_ok.
+
 (* interfaces: exactly once, orders kept, one-sided ones (and only those) listed with their side
    in one @EnvironmentInterfaces appended to the client's invisible class annotations *)
 Theorem C13_interfaces_marked : forall c s m,
